@@ -1,6 +1,7 @@
 package main
 
 import (
+	"fmt"
 	"go/ast"
 	"go/token"
 	"go/types"
@@ -898,4 +899,93 @@ func init() {
 			r.check(okDrop, "the timeout arm drops exactly that many from the head", p.pos(arm.Pos()), "for deleteUntil > 0 { strm := strms[0]; ...; closeStream(strm); deleteUntil-- }", "the request-timeout arm no longer takes, closes and removes the head of the table once per counted stream: it indexes an empty table (a panic on the stream loop) or resets streams that are not due")
 		},
 	})
+}
+
+func init() {
+	register(&Rule{
+		Name: "loops-do-not-queue-to-themselves", Props: []string{"C12", "C17"}, Engine: "CALLGRAPH", Floor: 2,
+		Doc: "the goroutine that is the only one to empty a queue never waits for room in it: nothing reachable (through static calls and closures, not through go statements) from the client's write loop sends on Conn.out, and nothing reachable from the server's write loop sends on serverConn.writer. With the queue full, which takes no more than a peer sending frames that need an answer, such a send waits for the sender itself",
+		Run: func(p *Prog, r *Out) {
+			for _, spec := range []struct{ root, owner, field string }{
+				{"(*Conn).runWriteLoop", "Conn", "out"},
+				{"(*serverConn).writeLoop", "serverConn", "writer"},
+			} {
+				root := p.ssaFunc(spec.root)
+				if root == nil {
+					r.undecided(spec.root, "?", "no longer resolves")
+					continue
+				}
+				r.fn(spec.root)
+				seen := map[*ssa.Function]*ssa.Function{root: nil}
+				work := []*ssa.Function{root}
+				for len(work) > 0 {
+					f := work[0]
+					work = work[1:]
+					for _, b := range f.Blocks {
+						for _, in := range b.Instrs {
+							ci, ok := in.(ssa.CallInstruction)
+							if !ok {
+								continue
+							}
+							if _, isGo := in.(*ssa.Go); isGo {
+								continue
+							}
+							for _, g := range p.calleesOf(ci) {
+								if g == nil || g.Blocks == nil || (g.Pkg != p.SPkg) {
+									continue
+								}
+								if _, ok := seen[g]; !ok {
+									seen[g] = f
+									work = append(work, g)
+								}
+							}
+						}
+					}
+				}
+				bad := ""
+				for f := range seen {
+					for _, b := range f.Blocks {
+						for _, in := range b.Instrs {
+							var ch ssa.Value
+							switch x := in.(type) {
+							case *ssa.Send:
+								ch = x.Chan
+							case *ssa.Select:
+								for _, st := range x.States {
+									if st.Dir == types.SendOnly && p.isFieldLoad(st.Chan, spec.owner, spec.field) {
+										ch = st.Chan
+									}
+								}
+							}
+							if ch != nil && p.isFieldLoad(ch, spec.owner, spec.field) {
+								// the path back to the root, for the report
+								path := p.fname(f)
+								for g := seen[f]; g != nil; g = seen[g] {
+									path = p.fname(g) + " -> " + path
+								}
+								if bad == "" || path < bad {
+									bad = path + " (" + p.ipos(in) + ")"
+								}
+							}
+						}
+					}
+				}
+				r.check(bad == "", spec.root+" never sends on "+spec.owner+"."+spec.field, "-", fmt.Sprintf("%d functions reachable, none sends on the queue", len(seen)), spec.root+" can reach a send on "+spec.owner+"."+spec.field+", the queue only it empties: "+bad+". With the queue full the loop waits for itself, and everything behind it for good")
+			}
+		},
+	})
+}
+
+// isFieldLoad: v is a load of the field owner.field.
+func (p *Prog) isFieldLoad(v ssa.Value, owner, field string) bool {
+	ld, ok := v.(*ssa.UnOp)
+	if !ok || ld.Op != token.MUL {
+		return false
+	}
+	fa, ok := ld.X.(*ssa.FieldAddr)
+	if !ok {
+		return false
+	}
+	o, f := p.fieldAddrName(fa)
+	return o == owner && f == field
 }
